@@ -1,22 +1,12 @@
-from ..engine import Case
-from . import c10
-
-
-FAILS = [({'VF_FAILMASK': 1}, 'f0'), ({'VF_FAILMASK': 2}, 'f1'), ({'VF_FAILMASK': 4}, 'f2'), ({'VF_FAILMASK': 0, 'VF_FAILFROM': 0}, 'ff0'), ({'VF_FAILMASK': 0, 'VF_FAILFROM': 1}, 'ff1')]
+from . import _agg
 
 
 def cases(tier):
-    out = []
-    for fd, fs in FAILS:
-        d = {'VF_ALLOCFAIL': None}
-        d.update(fd)
-        out += c10.vec_cases(tier, prefix='c15.%s' % fs, extra_defs=d, sizes=[1] if tier == 'quick' else [1, 3], maxes=[0, 2] if tier == 'quick' else [0, 1, 2, 3], timeout=600)
-    for fd, fs in FAILS:
-        d = {'VF_TS': None, 'VF_ALLOCFAIL': None}
-        d.update(fd)
-        out += c10.vec_cases(tier, prefix='c15.ts.%s' % fs, extra_defs=d, ops=['CTOR'], sizes=[1, 3])
-    return out
+    return _agg.cases(tier, 'allocfail')
 
 
 def meta(tier):
-    return {'level': 'model_checking', 'bounds': 'wip', 'explanation': 'wip'}
+    return _agg.meta(tier, 'allocfail',
+                     'For each operation and each allocation-failure position (1st, 2nd, 3rd allocation of the call; all-from-1st; all-from-2nd) the call either succeeds with the ideal effect or reports failure with contents equal to the pre-state ghost; '
+                     'invariant, a follow-up operation, the allocation ledger after free() and pointer checks are asserted in every case.',
+                     outside=['failures of allocations made inside libc (vsnprintf etc.)', 'more than the first three allocation positions of one call (all-subsequent-fail covers the rest jointly)'])
